@@ -169,6 +169,7 @@ package cluster
 // Cached regions hold no nil peers (the same assumption as in C09).
 //@ func (*RaftCluster).GetRegion
 //@   assumed
+//@   ensures result == cachedRegion(c.core.Regions, regionID)
 //@   ensures result != nil ==> allocated(result) && result.meta != nil && nonnil(result.meta.Peers)
 //@   modifies nothing
 //@ func (*RaftCluster).HandleStoreHeartbeat
